@@ -15,6 +15,8 @@ def parse(name):
     res = {}
     p = os.path.join(W, name)
     if not os.path.exists(p):
+        p = os.path.join(V, "seeded", "matrices", name)      # the committed copies
+    if not os.path.exists(p):
         return res
     cur = None
     for ln in open(p):
